@@ -145,9 +145,7 @@ func (w *worker) account(label string, in RunInput, out RunOutput) {
 		f = &Finding{Key: v.Key(), Rule: v.Rule, Sig: v.Sig, Detail: v.Detail, Count: 1, FirstRun: label}
 		w.finds[v.Key()] = f
 		w.res.Findings = append(w.res.Findings, f)
-		if len(w.res.Findings) <= w.spec.MaxFindings {
-			w.minimiseAndWrite(f, in, out, v)
-		}
+		w.minimiseAndWrite(f, in, out, v, len(w.res.Findings) <= w.spec.MaxFindings)
 	}
 }
 
@@ -170,14 +168,18 @@ func replayInput(in RunInput, out RunOutput) RunInput {
 	return r
 }
 
-func (w *worker) minimiseAndWrite(f *Finding, in RunInput, out RunOutput, v Violation) {
+func (w *worker) minimiseAndWrite(f *Finding, in RunInput, out RunOutput, v Violation, minimise bool) {
 	rin := replayInput(in, out)
 	chk := RunOne(w.t, w.p, rin)
 	if !hasKey(chk.Violations, v.Key()) {
 		f.MinFailed = fmt.Sprintf("immediate replay did not reproduce (got %v)", keys(chk.Violations))
 		return
 	}
-	best, st := Minimise(w.t, w.p, rin, v.Key(), w.spec.MinBudget)
+	budget := w.spec.MinBudget
+	if !minimise {
+		budget = 0 // too many distinct findings in this worker: keep the recorded run as it is
+	}
+	best, st := Minimise(w.t, w.p, rin, v.Key(), budget)
 	best.Trace = true
 	fin := RunOne(w.t, w.p, best)
 	if !hasKey(fin.Violations, v.Key()) {
